@@ -38,6 +38,7 @@ type c04state struct {
 	scanned  int
 	thorough bool
 	doneRng  map[string]bool
+	wrongKey int // wrong-key passes done
 }
 
 func newC04(r *run) *c04state {
@@ -234,6 +235,13 @@ func (c *c04state) scanImage(img []byte, when string) {
 	if c.scanned%4 == 1 {
 		c.freedPagesProbe(img)
 	}
+	if !r.stop && (interestingOp(r.opKind) || when == "end-of-run") && (c.thorough || c.wrongKey < 4 || when == "end-of-run") {
+		c.wrongKey++
+		c.wrongKeyPass(img, when)
+		if r.stop {
+			return
+		}
+	}
 	if i, off := c.find(img); i >= 0 {
 		p := c.pats[i]
 		set := "quasi-secret"
@@ -244,6 +252,112 @@ func (c *c04state) scanImage(img []byte, when string) {
 			"the database image at %s contains %s (%s, %d bytes) in clear at file offset %d (page %d)",
 			when, p.what, p.kind, len(p.b), off, off/4096)
 	}
+}
+
+// wrongKeyPass looks for secrets that are stored encrypted, but under the
+// PUBLIC crypto key (readable with the public passphrase alone): the image is
+// opened by a fresh, locked manager, every stored value is walked, every
+// length-prefixed field that decrypts under CKTPublic is searched for members
+// of the secret set.
+func (c *c04state) wrongKeyPass(img []byte, when string) {
+	r := c.r
+	path := filepath.Join(r.env.Dir, "wrongkey.db")
+	if writeFile(path, img) != nil {
+		return
+	}
+	db, err := walletdb.Open("bdb", path, true, dbTimeout, false)
+	if err != nil {
+		return
+	}
+	defer db.Close()
+	r.env.Count("c04.wrong-key-passes")
+	_ = walletdb.View(db, func(tx walletdb.ReadTx) error {
+		ns := tx.ReadBucket(nsKey)
+		if ns == nil {
+			return nil
+		}
+		mgr, err := waddrmgr.Open(ns, r.m.Pub, r.net)
+		if err != nil {
+			// a crash image taken before a public passphrase change is
+			// opened with the passphrase of its own time by the caller
+			return nil
+		}
+		defer mgr.Close()
+		try := func(blob []byte, where string) bool {
+			pt, err := mgr.Decrypt(waddrmgr.CKTPublic, blob)
+			if err != nil {
+				return true
+			}
+			r.env.Count("c04.public-key-fields")
+			if i, _ := c.findSecret(pt); i >= 0 {
+				p := c.pats[i]
+				r.fail(fmt.Sprintf("secret-under-public-key:kind=%s:op=%s", p.kind, r.opKind),
+					"the database image at %s stores %s (%s) encrypted under the PUBLIC crypto key (bucket path %s): readable with the public passphrase alone",
+					when, p.what, p.kind, where)
+				return false
+			}
+			return true
+		}
+		var walk func(b walletdb.ReadBucket, where string) bool
+		walk = func(b walletdb.ReadBucket, where string) bool {
+			ok := true
+			_ = b.ForEach(func(k, v []byte) error {
+				if !ok {
+					return nil
+				}
+				if v == nil {
+					if nb := b.NestedReadBucket(k); nb != nil {
+						ok = walk(nb, where+"/"+printable(k))
+					}
+					return nil
+				}
+				if len(v) >= 40 && !try(v, where+"/"+printable(k)) {
+					ok = false
+					return nil
+				}
+				for off := 0; off+4 <= len(v); off++ {
+					l := int(binary.LittleEndian.Uint32(v[off:]))
+					if l >= 40 && off+4+l <= len(v) {
+						if !try(v[off+4:off+4+l], where+"/"+printable(k)) {
+							ok = false
+							return nil
+						}
+					}
+				}
+				return nil
+			})
+			return ok
+		}
+		walk(ns, "waddrmgr")
+		return nil
+	})
+}
+
+func printable(k []byte) string {
+	for _, c := range k {
+		if c < 0x20 || c > 0x7e {
+			return hex.EncodeToString(k)
+		}
+	}
+	return string(k)
+}
+
+// findSecret is find restricted to the secret set.
+func (c *c04state) findSecret(b []byte) (int, int) {
+	n := len(b)
+	for off := 0; off+minPattern <= n; off++ {
+		cands, ok := c.index[binary.LittleEndian.Uint64(b[off:])]
+		if !ok {
+			continue
+		}
+		for _, i := range cands {
+			p := c.pats[i]
+			if p.secret && off+len(p.b) <= n && string(b[off:off+len(p.b)]) == string(p.b) {
+				return i, off
+			}
+		}
+	}
+	return -1, 0
 }
 
 // find returns the index of the first pattern that occurs in img and where.
@@ -432,8 +546,8 @@ func (r *run) checkWatchOnly(mgr *waddrmgr.Manager, db walletdb.DB, state string
 	}
 	n := len(r.m.Issued)
 	step := 1
-	if n > 40 {
-		step = n/40 + 1
+	if n > 24 {
+		step = n/24 + 1
 	}
 	_ = viewDB(db, func(ns walletdb.ReadBucket) error {
 		for i := 0; i < n && !r.stop; i += step {
